@@ -291,6 +291,8 @@ def engine_obs(gwy):
         "sending_disabled": bool(gwy._disable_sending),
         "discovery_disabled": bool(gwy.config.disable_discovery),
         "pause_writing": bool(getattr(gwy._protocol, "_pause_writing", False)),
+        "has_transport": gwy._transport is not None,
+        "reading_paused": gwy._transport is not None and getattr(gwy._transport, "_reading", True) is False,
     }
 
 
